@@ -87,6 +87,14 @@ TYPES = {
     "nest": [{"e": "A", "l": [{"x": 1}], "m": {"k": None, "j": {"B": 2}}, "t": [2**64 - 1, -2**63], "w": 9},
              {"e": {"C": [1, False]}, "l": [], "m": {}, "t": [1, 2, 3], "w": 9}],
     "value": [None, 1, 2**64 - 1, -2**63, 1.5, "s", [1, [2]], {"a": {"b": None}}, [], {}, [[]], {"a": []}, [{}], [[], [[]], {"k": [[]]}], [None], {"": None}],
+    "map_nt": [{"alice": 10, "bob": 0}, {}, {"": 1}, {"a": -1}, [["a", 1]]],
+    "map_nt_nest": [{"g": {"alice": ["x"], "bob": []}}, {"g": {}}, {}],
+    "map_enumkey": [{"Red": 1, "Green": -1}, {"Blue": 1}, {}, {"red": 1}],
+    "map_i32key": [{"1": True, "-2": False}, {"x": True}, {"1.0": True}, {" 1": True}, {"2147483648": True}, {}],
+    "map_u64key": [{"18446744073709551615": None, "0": 3}, {"-1": 1}, {"+1": 1}],
+    "map_boolkey": [{"true": 1, "false": 0}, {"True": 1}],
+    "hmap_nt": [{"alice": 10}, {}],
+    "ip": ["10.0.0.1", "::1", "300.0.0.1", {"V4": [10, 0, 0, 1]}, [10, 0, 0, 1], 1],
     "en2": [{"At": None}, {"At": 3}, {"At": "x"}, "At", {"Mark": None}, {"Mark": []}, "Mark", {"U": None}, {"U": []}, {"W": 7}, {"W": None}, {"V": []}, {"V": None}, {"V": [1, 2]},
             {"N": None}, {"N": True}, {"E": "A"}, {"E": {"B": 1}}, {"E": None}, {"S": {}}, {"S": None}, {"S": []}, "S", {"T": []}, {"T": None}, "T", {"At": [None]}, {"At": None, "W": 1}, None],
     "opt_en": [None, "A", {"B": 1}, {"A": None}, [None]],
@@ -110,6 +118,9 @@ class P(framework.Prop):
         N = 2500 if tier == "quick" else 150000
         for _ in range(N):
             out.append("ser " + dyn(rng, rng.choice([0, 1, 2, 3, 4])))
+        for x in ["IP4 10 0 0 1", "IP4 255 255 255 255", "IP6 0 0 0 0 0 0 0 1", "IP6 8193 3512 0 0 0 0 0 1", "SOCK 127 0 0 1 8080", "HR",
+                  "Seq [ IP4 1 2 3 4 HR ]", "Struct { \"97,100,100,114 IP4 10 0 0 1 \"104 HR }", "Some HR", "NVar \"65 SOCK 1 2 3 4 5", "Map { S \"107 IP6 0 0 0 0 0 0 0 0 }", "Tup [ HR HR ]"]:
+            out.append("serx " + x)
         for ty, vals in TYPES.items():
             for v in vals:
                 out.append("de %s %s" % (ty, wire.val(v)))
